@@ -323,3 +323,75 @@ func (h *hx) e2eStep(cfg srvCfg, host string, now int64, hdr string, items []sym
 		h.out.Cover("e2e_tls")
 	}
 }
+
+var VerifE2EClient func(priv crypto.PrivKey, host string,
+	respond func(reqHdr string) (status int, www, info string)) (peer.ID, error)
+
+type VerifE2ERecord struct {
+	ReqHdr  string
+	Status  int
+	Called  bool
+	Pid     peer.ID
+	RespHdr string
+}
+
+var VerifE2EPair func(serverKey crypto.PrivKey, mac []byte, ttl time.Duration, clientKey crypto.PrivKey,
+	host string, phases int, before func(phase int, reqHdr string), after func(rec VerifE2ERecord)) ([]peer.ID, []error)
+
+// e2ePair: three AuthenticatedDo calls of the real client against the real server
+// over HTTP (fresh handshake; stored token; token expired -> server-initiated
+// handshake).  Every request the server sees becomes a mode-1 case.
+func (h *hx) e2ePair(cfg srvCfg, cli uint64, host string, t0 int64) {
+	if VerifE2EPair == nil || cfg.ttl < time.Minute {
+		return
+	}
+	hostID := h.w.Intern(host)
+	nows := []int64{t0, t0 + 10*sec, t0 + int64(cfg.ttl) + 20*sec}
+	var now int64
+	var fresh uint64
+	var lastResp []sym.Item
+	before := func(phase int, reqHdr string) {
+		now = nows[phase]
+		nowFn = func() time.Time { return h.w.Time(now) }
+		fresh = h.nextChallenge()
+	}
+	after := func(rec VerifE2ERecord) {
+		// describe the request the real client sent
+		if _, ok := h.w.AbstractClientOut(rec.ReqHdr, cli, hostID, lastResp); !ok {
+			h.out.Cover("e2e_pair_request_not_understood")
+		}
+		items, _ := h.w.ItemsOfEmitted(rec.ReqHdr)
+		pid := int64(-1)
+		if rec.Called {
+			if k, ok := h.w.KeyOfID(rec.Pid); ok {
+				pid = int64(k)
+			} else {
+				pid = -2
+			}
+		}
+		out, ok := h.w.AbstractServerOut(rec.RespHdr, cfg.key, hostID, items)
+		if !ok {
+			h.out.Cover("e2e_output_not_understood")
+			rec.Status = -rec.Status
+		}
+		c := []int64{3, 1, int64(cfg.key), int64(cfg.mac), int64(cfg.ttl), int64(hostID), now, int64(fresh), 1, 1, 1, 0, 0}
+		c = sym.WireTable(c, valsOf(items))
+		c = sym.WireBytes(c, []byte(rec.ReqHdr))
+		c = append(c, int64(rec.Status), pid)
+		c = sym.WireOHdr(c, out)
+		h.out.Case(c)
+		h.out.Cover(fmt.Sprintf("e2e_pair_status_%d", rec.Status))
+		lastResp, _ = h.w.ItemsOfEmitted(rec.RespHdr)
+		h.nextChallenge() // a fresh block for the client's next draw
+	}
+	ids, errs := VerifE2EPair(h.w.Keys[cfg.key].Priv, h.w.Macs[cfg.mac], cfg.ttl, h.w.Keys[cli].Priv, host, 3, before, after)
+	for i := range ids {
+		if errs[i] != nil {
+			h.t.Fatalf("real client against real server, call %d: %v", i, errs[i])
+		}
+		if ids[i] != h.w.Keys[cfg.key].ID {
+			h.t.Fatalf("real client against real server, call %d: reported %s, server is %s", i, ids[i], h.w.Keys[cfg.key].ID)
+		}
+		h.out.Cover(fmt.Sprintf("e2e_pair_call_%d_reports_the_server", i))
+	}
+}
